@@ -454,7 +454,7 @@ def explore(modname, tier, seed, jobs=None, limit=None, options=None, list_sigs=
     deferred, hist_budget, hist_confirmed = [], 2, 0
     for ent in unmatched:
         # reproduce in a fresh process before reporting (cap: first 40 signatures; the rest are listed unreproduced)
-        if len(reported) < getattr(mod, "MAX_REPORT", 25):
+        if len(reported) < (int(os.environ.get("VERIF_MAX_REPORT", 0)) or getattr(mod, "MAX_REPORT", 25)):  # (sweeps over stored changes lower the cap: they only need the verdict)
             if getattr(mod, "REPRODUCE", True):
                 again = rerun_fresh(modname, ent["example"]["case"], options)
                 if sig_key(ent["sig"]) not in {sig_key(v["sig"]) for v in again}:
